@@ -1370,6 +1370,15 @@ class Exec:
             raise Unsupported(f"unresolved call `{callee}`")
         fn = self.resolve(callee, args)
         if fn is None:
+            if getattr(self.ctx, "uninterpreted_unknown_calls", False):
+                # dataflow obligations: an unknown callee is an uninterpreted function of its (opaque) arguments
+                from .builtins import deref as _d
+                names = []
+                for a in args:
+                    a = _d(self, a)
+                    names.append(getattr(a, "name", None) or type(a).__name__)
+                self.ctx.env_used.add("uninterpreted:" + callee)
+                return self.ctx.fresh_of_type("uf." + sanitize(callee.split("::")[-1]) + "(" + ",".join(names) + ")", dty) if dty not in ("()", "!", "") else UNIT
             raise Unsupported(f"unresolved call `{callee}`")
         return self.call_function(fn, args, fr.depth + 1)
 
